@@ -722,7 +722,11 @@ func c18Mtime(c *an.Ctx, fMtime, fSec, fNanos *types.Var) {
 			continue
 		}
 		name := an.FuncName(fn)
+		// the time being encoded: the function's time.Time parameter, or — when the
+		// time travels inside a struct (parameter or local) — the one value on which
+		// Unix()/Nanosecond()/IsZero() are called
 		var tp *ssa.Parameter
+		var tv ssa.Value
 		nT := 0
 		for _, pr := range fn.Params {
 			if c18IsTime(pr.Type()) {
@@ -730,17 +734,34 @@ func c18Mtime(c *an.Ctx, fMtime, fSec, fNanos *types.Var) {
 				nT++
 			}
 		}
+		if nT == 1 {
+			tv = tp
+		} else {
+			tp = nil
+			nT = 0
+			for _, call := range an.Calls(fn, an.M("time", "Time", "Unix"), an.M("time", "Time", "Nanosecond"), an.M("time", "Time", "IsZero")) {
+				r := an.Recv(call)
+				if r == nil {
+					continue
+				}
+				if tv == nil {
+					tv, nT = r, 1
+				} else if !an.SameVal(tv, r) {
+					nT = 2
+				}
+			}
+		}
 		if nT != 1 {
-			c.Problem("undecided: %s writes a UnixFS mtime but has %d time.Time parameters; the encoder rule needs exactly one", name, nT)
+			c.Problem("undecided: %s writes a UnixFS mtime from %d distinct time values; the encoder rule needs exactly one", name, nT)
 			continue
 		}
 		nEnc++
-		isT := func(v ssa.Value) bool { return an.SameVal(v, tp) }
+		isT := func(v ssa.Value) bool { return an.SameVal(v, tv) }
 		notZero := an.CallEdges(fn, an.M("time", "Time", "IsZero"), -1, isT, false)
 		// a conversion helper (unexported, only called statically) may rely on its
 		// callers: the !IsZero guard then has to hold at every call site for the
 		// actual time argument
-		callersGuard := c18CallersGuardNotZero(p, fn, tp)
+		callersGuard := tp != nil && c18CallersGuardNotZero(p, fn, tp)
 		guardedNZ := func(site ssa.Instruction) bool {
 			return an.GuardedBy(fn, nil, site, notZero) || callersGuard
 		}
@@ -988,7 +1009,7 @@ func c18Size(c *an.Ctx, pbt *types.Package) {
 		if b, ok := rs.At(0).Type().Underlying().(*types.Basic); !ok || b.Kind() != types.Uint64 {
 			continue
 		}
-		if len(an.InfeasibleUnder(fn, isSubj, constant.MakeInt64(0))) == 0 {
+		if len(an.InfeasibleUnderV(fn, isSubj, constant.MakeInt64(0))) == 0 {
 			continue
 		}
 		sizers[fn] = true
@@ -1001,7 +1022,7 @@ func c18Size(c *an.Ctx, pbt *types.Package) {
 		}
 		for _, dn := range names {
 			k := pbt.Scope().Lookup(dn).(*types.Const)
-			cut := an.InfeasibleUnder(fn, isSubj, k.Val())
+			cut := an.InfeasibleUnderV(fn, isSubj, k.Val())
 			reach := an.ReachSet(fn, from, cut, nil)
 			for _, in := range an.SortedInstrs(reach) {
 				r, ok := in.(*ssa.Return)
